@@ -1,19 +1,19 @@
 /-
 C20 — clear_config returns the configuration to its pristine state.
 -/
-import Gin.State
+import Gin.Machine
 
 namespace Gin.C20
 open Gin
 
 /-- The state of a fresh process that performed the same registrations (registry, finalize hooks,
     interactive-mode switch) and — unless they are cleared too — the same constant definitions.
-    `calls` / `constructed` are the harness's probe counters, not part of gin's state. -/
+    `calls` / `constructed` / `log` are the harness's probe counters, not part of gin's state. -/
 def pristineOf (st : State) (clearConstants : Bool) : State :=
   { initState with
       registry := st.registry, hooks := st.hooks, interactive := st.interactive,
       constants := if clearConstants then State.initConstants else st.constants,
-      calls := st.calls, constructed := st.constructed }
+      calls := st.calls, constructed := st.constructed, log := st.log }
 
 /-- `clear_config` succeeds in every state (any history: failed operations, locked configurations,
     constants defined in interactive mode) … -/
